@@ -32,7 +32,8 @@ from . import common
 from . import c14
 
 LEVEL = 'exploration'
-KNOWN = {'crash:similar-insert': 'C16-similar-insert-render'}
+KNOWN = {'crash:similar-insert': 'C16-similar-insert-render',
+         'crash:AssertionError@prettyprint.py:external_diff_render': 'C16-diff-marker-lines'}
 
 CATS = list(c14.CATS)
 ALL_SUBSETS = [frozenset(c for c, bit in zip(CATS, bits) if bit) for bits in itertools.product([0, 1], repeat=6)]
@@ -429,12 +430,23 @@ class _Acc:
         return self.cnt, self.fails, list(self.keys), self.sample
 
 
+def diff_marker_pairs():
+    """source text that contains, as ordinary lines, the marker line the external diff tools print themselves
+    ('\\ No newline at end of file'), unchanged between the two notebooks, next to a changed line"""
+    from bounded import nbspace
+    m = '\\ No newline at end of file\n'
+    for k in (1, 3):
+        a = nbspace.notebook([nbspace.code_cell('# notes on diff output\n' + m * k + 'x = 1\n')], 4)
+        b = nbspace.notebook([nbspace.code_cell('# notes on diff output\n' + m * k + 'x = 2\n')], 4)
+        yield a, b
+
+
 def _job_pairs(env, job, only):
     _, seed, n, tier = job
     from bounded import nbspace
     from nbdime.diffing.notebooks import diff_notebooks
     acc = _Acc(job)
-    for pi, (a, b) in enumerate(nbspace.pairs(seed, n)):
+    for pi, (a, b) in enumerate(itertools.chain(nbspace.pairs(seed, n), diff_marker_pairs())):
         if only is not None and only['index'] != pi:
             continue
         if nbspace.validate_strict(a) or nbspace.validate_strict(b):
